@@ -159,6 +159,7 @@ func worker(results chan<- result, files <-chan string, wg *sync.WaitGroup) {
 		}
 		// Skip directories
 		if info.IsDir() {
+			f.Close()
 			continue
 		}
 		hash := sha256.New()
